@@ -79,6 +79,9 @@ def run_case(case, ctx):
                               f"complete cid; scenario {sc.summary()}", sig)
         for p in (scen.T, scen.O1):
             o = common.retrieve_bytes(reader, p)
+            if not is_ok(o) and o[1] == "ObserverWouldBlock":
+                ctx.classify("reader would have waited for a file lock")   # a waiting reader observes nothing
+                continue
             if is_ok(o) and o[1] not in contents:
                 ctx.violation("reader-saw-partial-object", f"{where}: retrieve_object({p!r}) returned "
                               f"{seq._short(o[1])}; scenario {sc.summary()}", sig)
